@@ -8,9 +8,9 @@ use std::io::Write;
 use verif_harness::*;
 
 /// realisation of the abstract alphabet of Notation.tla (SymText), same order
-const SYMS: [&str; 36] = [
+const SYMS: [&str; 39] = [
     "a", "c", "h", "i", "A", "H", "`", "0", "1", "8", "9", "n", "e", "s", "w", "x", "p", "r", "R", "E", "m", "q", " ",
-    "\u{e9}", "\u{20ac}", "\u{161}", "\u{ff11}", "\u{1f600}", "\u{131}", "\u{16e}", "\u{172}", "\u{170}", "P", "N", "S", "W",
+    "\u{e9}", "\u{20ac}", "\u{161}", "\u{ff11}", "\u{1f600}", "\u{131}", "\u{16e}", "\u{172}", "\u{170}", "P", "N", "S", "W", "\n", "\r", "\t",
 ];
 
 fn outcome<T>(r: Result<Result<T, anyhow_like::Error>, String>, enc: impl Fn(&T) -> String) -> String {
